@@ -178,7 +178,7 @@ int main(int argc, char** argv) {
       char sbefore[64] = ""; if (tt == String && ((struct String*)o)->val) strncpy(sbefore, c_str(o), 63);
       long lbefore = (tt == Tuple || tt == String || tt == Array) ? (long)len(o) : 0;
       long long fin0 = led_retired_total + half_fin;
-      watch = (char*)o - sizeof(struct Header); freed = 0;
+      watch = (char*)o - sizeof(struct Header); freed = 0; int clsok = 1;
       if      (!strcmp(op, "del"))         HC_TRY(del(o));
       else if (!strcmp(op, "del_raw"))     HC_TRY(del_raw(o));
       else if (!strcmp(op, "del_root"))    HC_TRY(del_root(o));
@@ -196,6 +196,19 @@ int main(int argc, char** argv) {
       else if (!strcmp(op, "push"))        HC_TRY(push(o, $I(4)));
       else if (!strcmp(op, "pop"))         HC_TRY(pop(o));
       else if (!strcmp(op, "popat"))       HC_TRY(pop_at(o, $I(0)));
+      else if (!strcmp(op, "swapstack") || !strcmp(op, "swapheap")) {
+        /* swap with an object of the same type from ANOTHER storage class: the values change places, the objects stay what they
+           were (a heap object remains releasable, a stack object remains refused) */
+        if (tt == Int || tt == Float || tt == Half || tt == Odd || tt == Tiny) {
+          size_t sz = size(tt); char* buf = calloc(1, sizeof(struct Header) + sz + 8);
+          var pcls = op[4] == 's' ? (var)AllocStack : (var)AllocHeap;
+          var pt = header_init(buf, tt, (int)(intptr_t)pcls); memset(pt, 0x11, sz);
+          var a0 = header(o)->alloc;
+          HC_TRY(swap(o, pt));
+          clsok = header(o)->alloc == a0 && header(pt)->alloc == pcls && header(o)->type == tt && header(pt)->type == tt;
+          free(buf);
+        } else hc_exc = "";
+      }
       else { fprintf(stderr, "unknown dispose op %s\n", op); return 9; }
       int wasfreed = freed; watch = NULL;
       int same = 0;
@@ -205,7 +218,7 @@ int main(int argc, char** argv) {
         if (tt == Tuple || tt == Array) same = same && lbefore == (long)len(o);
       }
       ev_begin("dispose"); ev_str("how", how); ev_str("what", op); ev_str("exc", hc_exc); ev_str("msg", hc_msg);
-      ev_int("freed", wasfreed); ev_int("same", same); ev_int("fin", led_retired_total + half_fin - fin0); ev_int("line", cur_line); ev_end();
+      ev_int("freed", wasfreed); ev_int("same", same); ev_int("clsok", clsok); ev_int("fin", led_retired_total + half_fin - fin0); ev_int("line", cur_line); ev_end();
       if (wasfreed) break;
     }
     keep1 = NULL; keep2 = NULL;
